@@ -214,6 +214,9 @@ def run(ctx):
     _numeric_mode(ctx, r7, repo)
     _int_dtype(ctx, r8, repo)
     _width_history(ctx, r9, classes)
+    r10 = ctx.rule("C04.R10", "PRECISION-ARRIVES (interpreted, engine shared with C11.R7): the backend classes choose their float width by comparing `precision` with the literal '64b'; what reaches them is what set_backend hands over: walked over histories of switches, set_backend builds and reports the backend at the requested width -- also when the width is spelled in upper case, given together with a backend object of the other width, or changed alone", "HISTORY", floor=20)
+    from .c11 import _r7_switch_histories
+    _r7_switch_histories(ctx, r10)
     n, lam, x, mu, sigma = (Poly.atom(s) for s in ("n", "lam", "x", "mu", "sigma"))
     ref_pois = fn("xlogy", n, lam) - lam - fn("gammaln", n + 1)
     ref_norm = -fn("log", sigma * fn("sqrt", 2 * Poly.atom("PI"))) - ((x - mu) / (fn("sqrt", Poly.const(2)) * sigma)) ** 2
@@ -381,6 +384,46 @@ def _kw_roles(ctx, rid, m, attr):
                 ctx.violated(rid, m, c, f"library {attr} is not called with (x, loc=mu, scale=sigma)", node=c)
 
 
+def _logprob_interpreted(lp, prim, roles):
+    """What <helper>.log_prob hands to the primitive in the value's place: 'as given', a description of a conversion, or None
+    when the body is not interpretable (the structural reading then stands alone)."""
+    from ..alg import Interp, NotHandled, Obj, Undecided
+    seen = []
+    value = Obj("VALUE", {"dtype": Obj("VALUE_DTYPE"), "shape": Obj("VALUE_SHAPE")}, closed=True)
+
+    def rec(a, k):
+        seen.append(a[0] if a else k.get(roles[0]))
+        return Obj("LOGP")
+
+    def conv(name):
+        def f(a, k):
+            x = a[0] if a else None
+            dt = k.get("dtype", a[1] if len(a) > 1 else None)
+            if dt is None:
+                return x  # no dtype: the value itself (an array of the same numbers)
+            return Obj("CONVERTED", {"how": f"{name}(value, dtype={getattr(dt, 'name', dt)})"}, closed=True)
+        return f
+
+    def astype(recv, a, k):
+        if recv is value:
+            return Obj("CONVERTED", {"how": f"value.astype({getattr(a[0], 'name', a[0]) if a else '?'})"}, closed=True)
+        raise NotHandled()
+
+    selfattrs = {r: Obj(r.upper(), {"dtype": Obj(f"{r}.dtype"), "shape": Obj(f"{r}.shape")}, closed=True) for r in roles[1:]}
+    ext = {"__strict__": True, prim: rec, "asarray": conv("asarray"), "array": conv("array"), "astensor": conv("astensor"), ".astype": astype,
+           "numpy_backend": lambda a, k: Obj("tensorlib"), "jax_backend": lambda a, k: Obj("tensorlib")}
+    try:
+        Interp({"value": value, "np": Obj("np"), "jnp": Obj("jnp")}, selfattrs, {}, externals=ext).run(A.strip_docstring(lp.node.body))
+    except (Undecided, KeyError, TypeError, ValueError, IndexError, AttributeError):
+        return None
+    if not seen:
+        return None
+    v = seen[-1]
+    if v is value:
+        return "as given"
+    return v.attrs.get("how", v.name) if isinstance(v, Obj) else type(v).__name__
+
+
 def _helper_dist(ctx, rid, repo, backend_cls, helper_name, prim, roles, dist_value, ctor_roles):
     """numpy/jax: <helper>.log_prob(value) -> tensorlib.<prim>(value, self.<...>) and <x>_dist(...) -> <helper>(...)."""
     rel = backend_cls.relpath
@@ -396,8 +439,11 @@ def _helper_dist(ctx, rid, repo, backend_cls, helper_name, prim, roles, dist_val
         c = calls[0]
         got = [A.dotted(a) for a in c.args]
         want = [roles[0]] + [f"self.{r}" for r in roles[1:]]
-        if got == want:
-            ctx.holds(rid, site, f"{prim}({', '.join(want)})")
+        handed = _logprob_interpreted(lp, prim, roles)
+        if got == want and handed is not None and handed != "as given":
+            ctx.violated(rid, lp, c, f"{helper_name}.log_prob converts the value it was given before evaluating {prim} ({handed}): a conversion to the PARAMETERS' dtype truncates non-integer observations when the rates / means are integer-typed, so the distribution object and the primitive disagree", expected=f"{prim}(value as given, ...)", found=handed, node=c)
+        elif got == want:
+            ctx.holds(rid, site, f"{prim}({', '.join(want)})" + ("" if handed is None else " with the value as given"))
         else:
             ctx.violated(rid, lp, c, f"argument roles of {prim} in {helper_name}.log_prob are swapped or wrong", expected=str(want), found=str(got), node=c)
     init = h.methods["__init__"]
